@@ -11,6 +11,8 @@
 (*        or / oe   = filter(in, remove_invalid / escape_invalid)          *)
 (*        vor / voe = validate(or / oe);  sr / se = (filter(o) = o)        *)
 (*        rx  = verdicts of opaque validators on every quoted string       *)
+(*        inlang (optional) = FALSE: a value known not to be in the        *)
+(*              language of its attribute's expression                     *)
 (* TraceSpec accepts an F line iff the property holds of it (judged by the *)
 (* independent scanner Dangerous and WellFormed of XssTok).  DriftSpec      *)
 (* accepts everything and prints a DRIFT line where the mechanism model of *)
@@ -42,12 +44,16 @@ OutOK(o, v, st) ==
     /\ ~Dangerous(o, R, X)                 \* nothing that opens markup outside an allowed construct
     /\ WellFormed(o, R.enc)
 
+\* inlang = FALSE: the driver built an attribute value that is one forbidden character away from the language
+\* of its expression (or carries bytes the expression cannot match): such input must not validate
+InLangOK == (Has(Ev, "inlang") /\ ~Ev.inlang) => ~Ev.vi
 Accept ==
     /\ OutOK(OutR, Ev.vor, Ev.sr)
     /\ OutOK(OutE, Ev.voe, Ev.se)
     /\ Ev.vfr = Ev.vi /\ Ev.vfe = Ev.vi
     /\ (Ev.vi => OutR = Ev.in /\ OutE = Ev.in)
     /\ (Ev.vi => WellFormed(Ev.in, R.enc))
+    /\ InLangOK
 
 TF == Is("F") /\ Accept /\ UNCHANGED rl
 
@@ -80,7 +86,7 @@ WF ==
                              B2I(Ev.vfr = Ev.vi /\ Ev.vfe = Ev.vi),
                              B2I(Ev.vi => OutR = Ev.in /\ OutE = Ev.in),
                              B2I(Ev.vi => WellFormed(Ev.in, R.enc)),
-                             B2I(WellFormed(OutR, R.enc) /\ WellFormed(OutE, R.enc))>>))
+                             B2I(WellFormed(OutR, R.enc) /\ WellFormed(OutE, R.enc)), B2I(InLangOK)>>))
 WE ==
     /\ Is("E") /\ UNCHANGED rl
     /\ (AcceptE \/ PrintT(<<"WHYE", l, Scan(OutR, 1, R, {}), Scan(OutE, 1, R, {}),
